@@ -21,6 +21,7 @@ func init() {
 		},
 		Run: runC19,
 		Controls: []Control{
+			{Name: "refactor-prefix-length-check-in-int", Silent: true, File: "protocols/bgp/packet/helper.go", Old: "\tif !known || uint16(pfxLen) > 8*uint16(maxPfxLen) {", New: "\tif !known || int(pfxLen) > 8*int(maxPfxLen) {"},
 			{Name: "prefix-length-check-dropped", File: "protocols/bgp/packet/helper.go", Old: "\tif !known || uint16(pfxLen) > 8*uint16(maxPfxLen) {", New: "\tif !known || uint16(pfxLen) > 16*uint16(maxPfxLen) {", Expect: "prefix-length-bounded"},
 			{Name: "med-ignores-declared-length", File: "protocols/bgp/packet/path_attributes.go", Old: "func (pa *PathAttribute) decodeMED(buf *bytes.Buffer) error {\n\tif pa.Length != 4 {\n\t\treturn fmt.Errorf(\"invalid attribute length %d, expected 4\", pa.Length)\n\t}\n", New: "func (pa *PathAttribute) decodeMED(buf *bytes.Buffer) error {\n", Expect: "body-decoder-reads-length"},
 			{Name: "as4path-counts-as-aspath", File: "protocols/bgp/packet/decoder.go", Old: "\t\tcase ASPathAttr:\n\t\t\thaveASPath = true\n\t\tcase NextHopAttr:", New: "\t\tcase ASPathAttr, AS4PathAttr:\n\t\t\thaveASPath = true\n\t\tcase NextHopAttr:", Expect: "mandatory-attributes"},
@@ -158,7 +159,7 @@ func runC19(c *core.Ctx) {
 				if x, isNil := core.IsNilCheck(f.Pkg, ft.Expr); isNil && !ft.Truth && core.FieldOf(f.Pkg, x) == nlriF && ft.Enclosing {
 					hasN = true
 				}
-				if cl, isC := core.Unparen(ft.Expr).(*ast.CallExpr); isC && !ft.Truth && hm != nil && core.Callee(f.Pkg, cl) == hm.Obj && ft.Enclosing {
+				if cl := core.CallOf(f, ft.Expr); cl != nil && !ft.Truth && hm != nil && core.Callee(f.Pkg, cl) == hm.Obj && ft.Enclosing {
 					hasM = true
 				}
 			}
